@@ -984,9 +984,11 @@ class StyleProperties:
 
       for shadow in xml_attrib.split(","):
 
-        cs = shadow.split(" ")
+        # white space is allowed around the comma that separates shadows
 
-        if len(cs) < 1 or len(cs) > 4:
+        cs = shadow.split()
+
+        if len(cs) < 2 or len(cs) > 4:
           raise ValueError("Invalid Syntax")
         
         x_offset = StyleProperties.ttml_length_to_model(context, cs[0])
@@ -1006,7 +1008,7 @@ class StyleProperties:
 
             color = ttconv.utils.parse_color(cs[2])
 
-        else: # len(cs) == 4
+        elif len(cs) == 4:
 
           blur_radius = StyleProperties.ttml_length_to_model(context, cs[2])
           color = ttconv.utils.parse_color(cs[3])
